@@ -13,7 +13,7 @@ PLAN = {
         "fault_note": "no clock, I/O or concurrency is involved in this property; the simulator contributes history generation, the reference model, shrinking and replay only, so no fault kind applies",
         "components": {"real": ["fw/table FibStrategyTree", "fw/table FibStrategyHashTable (m in 1..6)", "std/encoding names/hashes"], "stub": []},
         "assumptions": ["64-bit name hashes do not collide on the generated universe",
-                        "names are drawn from a 3-letter alphabet, depth 0..6 (plus /zz probes); faces 1..5; costs 0..3 and 2^64-1"],
+                        "names are drawn from a 3-letter alphabet, depth 0..6 (plus /zz probes, and 4% look-alikes: two neighbouring components of a name in use merged into one component that spells out the boundary); faces 1..5; costs 0..3 and 2^64-1"],
     },
     "C06": {
         "parts": [{"engine": "tablesim", "quick": 100000, "thorough": 6000000}, {"engine": "mgmtsim", "quick": 8000, "thorough": 400000, "quick_wall": 45}],
@@ -61,7 +61,7 @@ PLAN = {
 PLAN["C20"] = {
     "parts": [{"engine": "enginesim", "quick": 500000, "thorough": 30000000}],
     "nontrivial": ">=2 Interests were pending simultaneously and >=2 kinds of result (Data, Nack, timeout) occurred",
-    "fault_note": "the scenario decides every interleaving of Express, Data/Nack arrival, 'fire the k-th due timer' and clock advance (on the dummy and production timers every due timer fires on each advance); network faults = Data that never comes (timeout), late Data after the deadline, duplicated Data, Nacks for names with and without a pending Interest; the face recycles its receive buffer after each callback",
+    "fault_note": "the scenario decides every interleaving of Express, Data/Nack arrival, 'fire the k-th due timer' and clock advance (on the dummy and production timers every due timer fires on each advance); network faults = Data that never comes (timeout), late Data after the deadline, duplicated Data, Nacks for names with and without a pending Interest; the face recycles its receive buffer after each callback; 7% of the Interests are expressed from a callback of the engine's timer",
     "components": {"real": ["std/engine/basic Engine (Express, onPacket, onData, onNack, timeout closures, handlers, Reply)", "std/engine/basic NameTrie", "std/ndn/spec_2022 codec", "std/engine/dummy Timer and DummyFace (30% of runs: the engine runs on the repository's own virtual-clock timer and dummy face)", "std/engine/basic Timer (2% of runs: production timer on a synctest bubble clock, timeouts on timer goroutines)"], "stub": ["face (SimFace implementing std/engine/face.Face; 70% of runs)", "timer (SimTimer implementing ndn.Timer: event heap, scenario-chosen firing order; 67% of runs; 30% of those scenarios contain race steps: 2-3 engine calls as concurrent tasks under a cooperative scheduler)"]},
     "assumptions": ["Express is not called re-entrantly from inside a result callback (the engine holds its PIT lock there)", "a Nack is allowed, not required, to resolve the Interests of its name"],
 }
@@ -75,7 +75,7 @@ PLAN["C11"] = {
 PLAN["C10"] = {
     "parts": [{"engine": "linksim", "quick": 300000, "thorough": 20000000}],
     "nontrivial": "a message needed >=2 fragments, or its single-frame encoding landed within 2 bytes of the MTU",
-    "fault_note": "link schedule = permutation/interleaving of the frames of up to three concurrent messages (clean population: exactly-once and byte identity are demanded); separate populations with frame loss (never a partial or altered delivery) and frame duplication (every delivered copy byte-identical)",
+    "fault_note": "link schedule = permutation/interleaving of the frames of up to three concurrent messages (clean population: exactly-once and byte identity are demanded); 3% of the runs on a long-lived face (4200+ fragments sent and reassembled beforehand); separate populations with frame loss (never a partial or altered delivery) and frame duplication (every delivered copy byte-identical)",
     "components": {"real": ["fw/face NDNLPLinkService send path (sendPacket: MTU budgeting, fragmentation, LP encoding)", "fw/face NDNLPLinkService receive path (handleIncomingFrame, reassemblePacket, dispatch)", "std/ndn/spec_2022 LpPacket codec"], "stub": ["transport (SimTransport: frames handed to the scenario's link schedule)", "forwarding threads behind the receiver (recording dispatch.FWThread)"]},
     "assumptions": ["PIT tokens are at most 32 bytes (NDNLPv2)", "the receiver is a non-local face (local faces fan Data out to several threads by design)"],
 }
@@ -114,7 +114,7 @@ DV_COMPONENTS = {"real": ["dv/dv Router (update rule with poison reverse, advert
 PLAN["C18"] = {
     "parts": [{"engine": "dvsim", "quick": 5000, "thorough": 500000, "quick_wall": 150}],
     "nontrivial": ">=3 routers and the settle phase needed >=2 rounds in which tables still changed",
-    "fault_note": "arbitrary delivery order of sync Interests, advertisement fetches and replies; loss (fetch retries), duplication, delay; link removal and re-addition; router crash and restart (volatile state lost); dead-check ticks; then faults stop and bounded-time convergence is demanded",
+    "fault_note": "arbitrary delivery order of sync Interests, advertisement fetches and replies; loss (fetch retries), duplication, delay; link removal and re-addition; router crash and restart (volatile state lost); dead-check ticks; transient send errors (a router's socket refuses its next 1-4 routing packets); the daemon's update goroutines held back and released in a scenario-chosen order; then faults stop and bounded-time convergence is demanded",
     "components": DV_COMPONENTS,
     "assumptions": ["links are symmetric and unit cost (the daemon has no other metric)", "after faults stop the hub delivers everything and keeps ticking; convergence must be reached within 400 heartbeat rounds / 50000 deliveries (worst case count-to-infinity is about n^2*16*degree deliveries)"],
 }
